@@ -48,6 +48,8 @@ JudgeReach(c, M) ==
             THEN V(c, "ReachTestPrereq", Some(wantTest \ ReachPaths(M, {"meson-test-prereq"})))
        ELSE IF ~(wantBench \subseteq ReachPaths(M, {"meson-benchmark-prereq"}))
             THEN V(c, "ReachBenchPrereq", Some(wantBench \ ReachPaths(M, {"meson-benchmark-prereq"})))
+       ELSE IF UnityFilesWrong(p, M) # {} THEN V(c, "UnityChunks", Some(UnityFilesWrong(p, M)))
+       ELSE IF UnityExtractionWrong(p, M) # {} THEN V(c, "UnityExtraction", Some(UnityExtractionWrong(p, M)))
        ELSE IF ~("all" \in Rng(M.defaults)) THEN V(c, "DefaultIsAll", M.defaults)
        ELSE V(c, "ok", <<>>)
 
